@@ -69,26 +69,26 @@ func candidateValues(key uint16) [][]byte {
 	v4mapped := cat(rep(0, 10), rep(0xff, 2), []byte{192, 0, 2, 1})
 	v6 := cat([]byte{0x20, 1, 0xd, 0xb8}, rep(0, 11), []byte{1})
 	return [][]byte{
-		{},                     // no value at all
-		{0},                    // one zero octet / one empty identifier
-		{1},                    // an identifier that runs over the end
-		be(0),                  // key 0 / port 0
-		be(key),                // the parameter names itself
-		be(0, key),             // ... after key 0
-		be(0, 1),               // mandatory=mandatory,alpn
-		be(1, 0),               // the same, descending
-		be(0, 0),               // key 0 twice / 0.0.0.0
-		be(key, key),           // one element twice
-		be(1, 3),               // ascending
-		be(3, 1),               // descending
-		be(1, 3, 3),            // repeated at the end
-		be(1, 3, 4, 5, 6, 7),   // a longer list
-		be(65535),              // the largest element
-		be(65534, 65535),       // ...
-		be(65535, 65535),       // 255.255.255.255
-		{1, 187, 0},            // three octets
-		{192, 0, 2, 1, 9},      // five octets
-		{192, 0, 2, 1, 192, 0, 2, 1}, // one address twice
+		{},                                             // no value at all
+		{0},                                            // one zero octet / one empty identifier
+		{1},                                            // an identifier that runs over the end
+		be(0),                                          // key 0 / port 0
+		be(key),                                        // the parameter names itself
+		be(0, key),                                     // ... after key 0
+		be(0, 1),                                       // mandatory=mandatory,alpn
+		be(1, 0),                                       // the same, descending
+		be(0, 0),                                       // key 0 twice / 0.0.0.0
+		be(key, key),                                   // one element twice
+		be(1, 3),                                       // ascending
+		be(3, 1),                                       // descending
+		be(1, 3, 3),                                    // repeated at the end
+		be(1, 3, 4, 5, 6, 7),                           // a longer list
+		be(65535),                                      // the largest element
+		be(65534, 65535),                               // ...
+		be(65535, 65535),                               // 255.255.255.255
+		{1, 187, 0},                                    // three octets
+		{192, 0, 2, 1, 9},                              // five octets
+		{192, 0, 2, 1, 192, 0, 2, 1},                   // one address twice
 		rep(0, 15), rep(0, 16), rep(0, 17), rep(0, 32), // short, ::, long, :: twice
 		rep(0xff, 16),
 		v4mapped, cat(v6, v4mapped), cat(v6, v6), v6,
